@@ -2066,7 +2066,8 @@ def emit_module(m, opts):
     names = [g for g in m.gorder if kept(g)]
     for g in sorted(em.extra_globals):
         if g not in m.globals:
-            m.globals[g] = dict(name=g, type=TPtr(TInt(8)), init=None, link=[], const=True); names.append(g)
+            m.globals[g] = dict(name=g, type=TPtr(TInt(8)), init=None, link=[], const=True)
+        if g not in names: names.append(g)     # declared in the IR but only referenced by a modelled __throw_* helper
     for g in names:
         G = m.globals[g]
         if 'alias' in G: continue
